@@ -139,6 +139,28 @@ func (c *Check) expiredBatchRules(prefix string, which map[string]bool) {
 		if hasEq(af, field("RequestContext", "BatchState", u.EB.val()), "#types.BATCHCOMPLETED", true) && (iScan < 0 || iComplete < 0) {
 			add("complete-at-expiry", "a batch that is not completed is neither scanned nor completed at expiry", pa)
 		}
+		// a batch completed on this path stays completed in what the path leaves in the store: the last value stored for the
+		// context carries BatchState = COMPLETED (a stale copy written after the completed one would reopen the batch)
+		if iComplete >= 0 && iDelCtx < 0 {
+			var lastStored *Term
+			for _, ev := range pa.Events {
+				if ev.Kind == EvCall {
+					for _, e := range c.P.effectsOfEvent(f, ev) {
+						if e.Kind == "store" && e.Op == "Set" && e.Family == "0x08" {
+							if sv := structIn(e.Val, "RequestContext"); sv != nil {
+								lastStored = sv
+							}
+						}
+					}
+				}
+			}
+			if lastStored != nil {
+				bs := field("RequestContext", "BatchState", lastStored)
+				if !bs.IsAt("#types.BATCHCOMPLETED") && !af.Holds(mk("==", bs, c.constTerm("types.BATCHCOMPLETED")), true) {
+					add("complete-at-expiry", "the batch is completed on the path but the context last stored carries BatchState = "+shortTerm(bs), pa)
+				}
+			}
+		}
 		// case analysis on the continuation
 		hn := hasNextTerm(X)
 		hasNext := af.Holds(hn, true)
